@@ -78,9 +78,9 @@ PROPS = {
                         'two builds: assertions enabled (any exception is a violation) and -DNDEBUG'],
         'stages': [
             {'src': 'C08.cpp', 'configs': ['SO2d', 'SE2d', 'SO3d', 'SE3d', 'SE_2_3d', 'SGal3d', 'SO2f', 'SE2f', 'SO3f', 'SE3f', 'SGal3f', 'B_SE3_SO2_R3_d', 'B_SE3_SO2_R3_f'],
-             'cases': {'quick': 300, 'thorough': 6000}, 'shards': {'quick': 1, 'thorough': 2}, 'max_size': 100},
+             'cases': {'quick': 300, 'thorough': 2400}, 'shards': {'quick': 1, 'thorough': 2}, 'max_size': 100},
             {'src': 'C08.cpp', 'configs': ['SE2d', 'SO3d', 'SE3d', 'SGal3d', 'SE3f', 'SO2f'], 'tag': '-ndebug', 'defs': ['-DNDEBUG'],
-             'cases': {'quick': 200, 'thorough': 4000}, 'shards': {'quick': 1, 'thorough': 1}, 'max_size': 100},
+             'cases': {'quick': 200, 'thorough': 1600}, 'shards': {'quick': 1, 'thorough': 2}, 'max_size': 100},
             {'kind': 'fuzz', 'tiers': ['thorough'], 'src': 'C08.cpp', 'configs': ['SE2d', 'SO3d', 'SE3d', 'SGal3d', 'SE3f', 'SO2f', 'B_SE3_SO2_R3_d', 'SE_2_3d'],
              'seconds': {'quick': 20, 'thorough': 600}, 'jobs': 2, 'max_len': 8192},
         ],
@@ -184,11 +184,11 @@ PROPS = {
             {'src': 'C17.cpp', 'configs': ['SE2d', 'SO3d', 'SE3d', 'R3d', 'SE2f', 'SO3f'], 'tag': '-asan',
              'defs': ['-fsanitize=address,undefined', '-fno-sanitize-recover=undefined', '-fno-omit-frame-pointer'],
              'env': {'ASAN_OPTIONS': 'hard_rss_limit_mb=4000:detect_leaks=0:allocator_may_return_null=1'},
-             'cases': {'quick': 160, 'thorough': 6000}, 'shards': {'quick': 2, 'thorough': 4}, 'timeout': {'quick': 900, 'thorough': 7200}, 'case_scale': {'SE3d': 0.5}, 'shrink_budget': 120},
+             'cases': {'quick': 160, 'thorough': 3000}, 'shards': {'quick': 2, 'thorough': 4}, 'timeout': {'quick': 900, 'thorough': 7200}, 'case_scale': {'SE3d': 0.5}, 'shrink_budget': 120},
             {'src': 'C17.cpp', 'configs': ['SE2d', 'SE3d'], 'tag': '-asan-ndebug',
              'defs': ['-DNDEBUG', '-fsanitize=address,undefined', '-fno-sanitize-recover=undefined', '-fno-omit-frame-pointer'],
              'env': {'ASAN_OPTIONS': 'hard_rss_limit_mb=4000:detect_leaks=0:allocator_may_return_null=1'},
-             'cases': {'quick': 120, 'thorough': 3000}, 'shards': {'quick': 2, 'thorough': 2}, 'timeout': {'quick': 900, 'thorough': 7200}, 'case_scale': {'SE3d': 0.5}, 'shrink_budget': 120},
+             'cases': {'quick': 120, 'thorough': 1500}, 'shards': {'quick': 2, 'thorough': 2}, 'timeout': {'quick': 900, 'thorough': 7200}, 'case_scale': {'SE3d': 0.5}, 'shrink_budget': 120},
             {'kind': 'fuzz', 'tiers': ['thorough'], 'src': 'C17.cpp', 'configs': ['SE2d', 'SO3d', 'SE3d', 'R3d'], 'rc_tag': '-asanrc',
              'seconds': {'quick': 20, 'thorough': 600}, 'jobs': 4, 'max_len': 4096},
         ],
